@@ -12,6 +12,11 @@ def jobs(tier):
             models=['bit-packer replaced by a byte counter (sizes only)'],
             bounds='block sizes (%d,%d), bias %s, min/max bits per short block < 2^%d, reservoir < 2^%d, candidate sizes < 2^%d bytes, zero padding <= %d bytes, initial candidate %d, average tracker off; inductive step => any stream length'%(1<<b0,1<<b1,bias,qb,qb+3,sb,pad,avg),
             weight=5))
+    import sys,os
+    sys.path.insert(0,os.path.dirname(os.path.dirname(os.path.abspath(__file__))))
+    from jobs_lib import load
+    J.append(Job('ctl-ratemanage2','C15/ctl_rm2.c',unwind=4,object_bits=12,witnesses=['frozen','accepted','rejected'],functions=['vorbis_encode_ctl'],
+        models=[],bounds='every field value (kbps fields within +-2^20, reservoir any long, bias/damping any double bit pattern)'))
     return J
 CLAIM={'text':'Inductive-step model checking of the real rate controller vorbis_bitrate_addblock from every reservoir state and every 15 candidate packet sizes: reservoir fill stays within [-7, reservoir+7] bits and every bit above max / below min is charged to it, which telescopes to the property for every contiguous run of packets.',
  'note':'Trusted: bit-packer abstracted to a size counter; value ranges are bounded (bit widths listed per job); average-bitrate tracker off; 7-bit byte-granularity slack is part of the claim; mapping of bits-per-block to rate x duration uses max_bitsper = rint(max_rate*(bs0/2)/rate).'}
